@@ -387,6 +387,21 @@ _BV_BIN = {
 }
 
 
+def div_abstraction(ctx, s):
+    """floor division by the symbolic divisor s > 0, factored:  x*s is written MUL(x) with MUL(0) = 0, MUL(x+1) = MUL(x) + s
+    (sound weakening of multiplication), and a // s = DIV(a) with  MUL(DIV(a)) <= a < MUL(DIV(a)+1)  (definition of floor division
+    for s > 0, Python and numpy int64 alike).  Returns (DIV, MUL)."""
+    s = z3.simplify(as_int_term(s))
+    DIV = z3.Function(fresh_name("DIV"), z3.IntSort(), z3.IntSort())
+    MUL = z3.Function(fresh_name("MUL"), z3.IntSort(), z3.IntSort())
+    ctx.assume(s > 0)
+    ctx.assume(MUL(0) == 0)
+    ctx.assume_forall("MUL.step", lambda x: MUL(x + 1) == MUL(x) + s)
+    ctx.assume_forall("floor-division", lambda a: z3.And(MUL(DIV(a)) <= a, a < MUL(DIV(a) + 1)))
+    ctx.ghost["div_abstraction"] = {"divisor": s, "DIV": DIV, "MUL": MUL, "dividends": []}
+    return DIV, MUL
+
+
 def apply_binary(name, a, b):
     ka, kb = kind_of_term(a), kind_of_term(b)
     if "bv" in (ka, kb):
@@ -1052,6 +1067,12 @@ def binary(name, a, b, dtype=None):
             shifted.nz, shifted.nz_shift = arr.nz, getattr(arr, "nz_shift", 0) + z3.simplify(t).as_long()
             return shifted
         rd = result_dtype_binary(name, arr.dtype, ob[2] if not isinstance(b, (int, bool)) else arr.dtype)
+        ab = cur().ghost.get("div_abstraction")
+        if name == "floor_divide" and ab is not None and arr.kind == "int" and z3.is_expr(t) and ab["divisor"].eq(z3.simplify(t)):
+            # division by the registered symbolic positive divisor s in factored form (keeps the VCs linear): DIV(a) is the unique Q
+            # with MUL(Q) <= a < MUL(Q+1), MUL(x) standing for x*s (see div_abstraction); decided when the array operation is made
+            DIV = ab["DIV"]
+            return SymArr.fresh(arr.shape_, lambda *i: DIV(snap(*i)), "int", dtype or rd)
         probe = apply_binary(name, snap(*[z3.IntVal(0)] * arr.ndim), t)
         return SymArr.fresh(arr.shape_, lambda *i: apply_binary(name, snap(*i), t), kind_of_term(probe), dtype or rd)
     A, B = oa[1], ob[1]
